@@ -50,6 +50,10 @@ inductive Raise where
   | readError
   /-- `Error("fmt {}", args…)`: variadic formatting ctor → `EXIT_FAILURE` -/
   | fmtError
+  /-- `Error("… {} …", n)` with a *single `int` argument* (`nl-reader.h` "function {} is not defined",
+      `expr.h` "function {} is already defined"): overload resolution prefers the non-template
+      `Error(CStringRef msg, int c)`, so `n` becomes the exit code (and the message stays unformatted) -/
+  | fmtIntArg (n : Int)
   /-- `fmt::SystemError` (cannot open/map a file): *not* an `mp::Error` -/
   | systemError
   /-- any other `std::exception` (`std::runtime_error`, `std::bad_alloc`, `std::out_of_range` …) -/
@@ -81,6 +85,7 @@ def Raise.toExn : Raise → Exn
   | .optionError => .mpError (-1)
   | .readError => .mpError EXIT_FAILURE
   | .fmtError => .mpError EXIT_FAILURE
+  | .fmtIntArg n => .mpError n
   | .systemError => .stdExn
   | .stdExn => .stdExn
   | .foreign => .foreign
@@ -292,8 +297,8 @@ def parseOpts : List Opt → Nat → Nat × Option Raise
 def exitStatus (c : Int) : Nat := (c % 256).toNat
 
 /-- `Solver::WRITE_SOL_FILE = 1`, `SUPPRESS_SOLVER_MSG = 8` -/
-def wantsFile (ampl : Bool) (wantsol : Nat) : Bool := ampl || wantsol % 2 == 1
-def suppressMsg (wantsol : Nat) : Bool := (wantsol / 8) % 2 == 1
+def wantsFile (ampl : Bool) (wantsol : Nat) : Bool := ampl || (wantsol &&& 1) != 0
+def suppressMsg (wantsol : Nat) : Bool := (wantsol &&& 8) != 0
 
 /-- `AppSolutionHandlerImpl::HandleSolution` → `SolutionWriterImpl::HandleSolution` →
 `WriteSolFile`.  `none` = a `fmt::SystemError` leaves the function (the file cannot be opened, or
